@@ -3,8 +3,8 @@ import itertools
 import re
 from suites.common import reflect, exc_result, rstr, LOWER, DIGITS
 
-SHORTS = ["f", "rhel", "fedora", "my-product", "a-b-c", "a1-2b", "x-updates", "rhel-ha", "a-b", "z9", "spacewalk-x"]
-VERSIONS_NUM = ["1", "23", "1.0", "7.9", "10.2.3", "0", "20240101"]
+SHORTS = ["f", "rhel", "fedora", "my-product", "a-b-c", "a1-2b", "x-updates", "rhel-ha", "a-b", "z9", "spacewalk-x", "sles-sp", "rhel-beta"]
+VERSIONS_NUM = ["1", "23", "1.0", "7.9", "10.2.3", "0", "20240101", "2"]
 VERSIONS_FREE = ["rawhide", "Rawhide", "xga", "eus", "beta", "X1", "testing", "v.1", "Xga", "updates", "b", "ga", "EUS", "GA", "Fast", "Updates", "E4S",
                  "fast", "Beta_2", "r.a.w", "x1y", "Aeus"]
 BAD_SHORTS = ["", "F", "1a", "a--b", "-a", "a-", "a_b", "a@b", "a.b"]
@@ -50,7 +50,7 @@ def gen_part(rng, types):
         version = rng.choice(VERSIONS_FREE)
     k = rng.random()
     if k < 0.1:
-        rtype = rng.choice(BAD_TYPES + ["foo", "beta"])
+        rtype = rng.choice(BAD_TYPES + ["foo", "beta", "sp-1", "beta-2"])        # the last two: well-formed types outside the table
     else:
         rtype = rng.choice(types)
     return [short, version, rtype]
